@@ -21,24 +21,32 @@ import math
 TAU = 1e-4
 
 
-class Verdict:
-    __slots__ = ("may", "must", "hard", "band", "tau")
+COMPLETENESS = {"missing", "length", "not_closed", "demand_unserved", "min_prize", "route_ends_carrying"}
 
-    def __init__(self, tau=TAU):
+
+class Verdict:
+    __slots__ = ("may", "must", "hard", "band", "tau", "ignore")
+
+    def __init__(self, tau=TAU, ignore=()):
         self.may = True
         self.must = True
         self.hard = []
         self.band = []
         self.tau = tau
+        self.ignore = set(ignore)
 
     def fail(self, name):
         """structural / exact violation"""
+        if name.split(":")[0] in self.ignore:
+            return
         self.may = False
         self.must = False
         self.hard.append(name)
 
     def le(self, value, limit, name, exact=False, strict_ok=True):
         """constraint value <= limit"""
+        if name in self.ignore:
+            return
         if exact:
             if not value <= limit:
                 self.fail(name)
@@ -107,7 +115,8 @@ def _once(v: Verdict, visits, n, first=1, exactly=True):
 def check(kind, inst, actions, cfg=None) -> Verdict:
     cfg = cfg or {}
     exact = bool(inst.get("_exact", False))
-    v = Verdict()
+    # partial=True judges an unfinished prefix: constraints that only a complete solution can meet are skipped
+    v = Verdict(ignore=COMPLETENESS if cfg.get("partial") else ())
     actions = list(actions)
     f = globals().get("_check_" + kind.split(":")[0])
     if f is None:
@@ -149,7 +158,7 @@ def _check_cvrptw(v, inst, actions, cfg, exact):
     dur = inst["durations"]
     t, cur = 0.0, 0
     seq = list(actions)
-    if not seq or seq[-1] != 0:
+    if (not seq or seq[-1] != 0) and not cfg.get("partial"):
         seq = seq + [0]  # the vehicle finally returns to the depot
     for a in seq:
         arr = t + dist(nodes[cur], nodes[a])
@@ -166,13 +175,18 @@ def _check_sdvrp(v, inst, actions, cfg, exact):
     Q = cfg.get("vehicle_capacity", 1.0)
     rem = [0.0] + list(inst["demand"])
     load = 0.0
+    prev = None
     for a in actions:
         if not (0 <= a <= n):
             v.fail("out_of_range")
             return
         if a == 0:
+            if prev == 0 and any(r > 0 for r in rem[1:]):
+                v.fail("pointless_visit")  # documented: the depot is not visited twice in a row while demand is left
             load = 0.0
+            prev = 0
             continue
+        prev = a
         d = min(rem[a], Q - load)
         if d <= 0:
             v.fail("pointless_visit")  # a visit that cannot deliver anything
